@@ -119,6 +119,7 @@ class World:
         self.faults = {}     # wid -> set of invocation numbers (1-based) at which the callback raises
         self.calls = {}      # wid -> invocation count
         self.cbs = {}
+        self.unwatched_in_cb = {}
         for wid in range(len(specs)):
             self.register(wid)
 
@@ -140,6 +141,13 @@ class World:
             if self.calls[wid] in self.faults.get(wid, ()):
                 self.trace.append(("raise", wid))
                 raise Fault(f"watcher {wid} invocation {self.calls[wid]}")
+            uw = spec.get("unwatch_on_call")
+            if uw is not None and not self.unwatched_in_cb.get(wid) and uw < len(self.specs) and self.handles[uw] is not None \
+                    and self.specs[uw].get("dup_of") is None and not any(sp.get("dup_of") == uw for sp in self.specs):
+                # the callback removes a watcher (possibly itself) while the event is being dispatched
+                self.unwatched_in_cb[wid] = True
+                self.trace.append(("unwatch", wid, uw))
+                self.unregister(uw)
             for k, (n, _v) in enumerate(spec["script"]):
                 self.assign(tidx, NAMES[n], self.script_vals[wid][k], scripted=wid)
             self.trace.append(("exit", wid))
